@@ -365,7 +365,11 @@ func c20Edit(t *rapid.T, s string) string {
 	return string(b)
 }
 
-func genC20Merge(t *rapid.T) c20MergeScenario {
+func genC20Merge(t *rapid.T) c20MergeScenario { return c20GenDocs(t) }
+
+// c20GenDocs draws a base/overlay pair; forced key indexes (into c20Keys) are always part
+// of the scenario's key universe.
+func c20GenDocs(t *rapid.T, forced ...int) c20MergeScenario {
 	s := c20MergeScenario{Mode: "gen"}
 	// key universe of this scenario: a few nested keys (always) plus some others, so that
 	// base and overlay overlap on a good share of their keys.
@@ -376,6 +380,9 @@ func genC20Merge(t *rapid.T) c20MergeScenario {
 			seen[i] = true
 			universe = append(universe, i)
 		}
+	}
+	for _, i := range forced {
+		add(i)
 	}
 	for i, n := 0, 1+c20U(t, 3, "nnested"); i < n; i++ {
 		add(c20NestedIdx[c20U(t, len(c20NestedIdx), "nested")])
